@@ -868,6 +868,359 @@ proof fn lemma_final_to_outer(ds: &SimpleDSet, i: int, d: int,
 }
 
 
+
+// ---------------------------------------------------------------------------------------------------------
+// least return times ("r(i,i+1,d) is the length of the orbit of d under the product of operations i and i+1")
+// ---------------------------------------------------------------------------------------------------------
+// abstract pair of involutions on 1..=n
+pub struct Inv2 { pub n: int, pub s: spec_fn(int) -> int, pub t: spec_fn(int) -> int }
+
+impl Inv2 {
+    pub open spec fn wf(&self) -> bool {
+        &&& forall|x: int| 1 <= x <= self.n ==> 1 <= #[trigger] (self.s)(x) <= self.n && (self.s)((self.s)(x)) == x
+        &&& forall|x: int| 1 <= x <= self.n ==> 1 <= #[trigger] (self.t)(x) <= self.n && (self.t)((self.t)(x)) == x
+    }
+    pub open spec fn step(&self, x: int) -> int { (self.t)((self.s)(x)) }
+    pub open spec fn istep(&self, x: int) -> int { (self.s)((self.t)(x)) }
+    pub open spec fn iter(&self, x: int, k: nat) -> int decreases k {
+        if k == 0 { x } else { self.step(self.iter(x, (k - 1) as nat)) }
+    }
+    pub open spec fn iiter(&self, x: int, k: nat) -> int decreases k {
+        if k == 0 { x } else { self.istep(self.iiter(x, (k - 1) as nat)) }
+    }
+    // n is the least return time of x under step
+    pub open spec fn ret(&self, x: int, m: nat) -> bool {
+        m >= 1 && self.iter(x, m) == x && forall|k: nat| 0 < k < m ==> #[trigger] self.iter(x, k) != x
+    }
+    pub open spec fn iret(&self, x: int, m: nat) -> bool {
+        m >= 1 && self.iiter(x, m) == x && forall|k: nat| 0 < k < m ==> #[trigger] self.iiter(x, k) != x
+    }
+}
+
+pub proof fn lemma_range(p: &Inv2, x: int, k: nat)
+    requires p.wf(), 1 <= x <= p.n
+    ensures 1 <= p.iter(x, k) <= p.n, 1 <= p.iiter(x, k) <= p.n
+    decreases k
+{
+    if k > 0 {
+        lemma_range(p, x, (k - 1) as nat);
+        let y = p.iter(x, (k - 1) as nat);
+        assert(1 <= (p.s)(y) <= p.n);
+        let z = p.iiter(x, (k - 1) as nat);
+        assert(1 <= (p.t)(z) <= p.n);
+    }
+}
+
+pub proof fn lemma_step_istep(p: &Inv2, x: int)
+    requires p.wf(), 1 <= x <= p.n
+    ensures p.step(p.istep(x)) == x, p.istep(p.step(x)) == x, 1 <= p.step(x) <= p.n, 1 <= p.istep(x) <= p.n
+{
+    assert(1 <= (p.t)(x) <= p.n);
+    assert(1 <= (p.s)(x) <= p.n);
+    assert((p.s)((p.s)((p.t)(x))) == (p.t)(x));
+    assert((p.t)((p.t)((p.s)(x))) == (p.s)(x));
+}
+
+pub proof fn lemma_iter_add(p: &Inv2, x: int, a: nat, b: nat)
+    ensures p.iter(p.iter(x, a), b) == p.iter(x, a + b), p.iiter(p.iiter(x, a), b) == p.iiter(x, a + b)
+    decreases b
+{
+    if b > 0 { lemma_iter_add(p, x, a, (b - 1) as nat); }
+}
+
+// front form: iter(x, k+1) == iter(step x, k)
+pub proof fn lemma_iter_front(p: &Inv2, x: int, k: nat)
+    ensures p.iter(x, k + 1) == p.iter(p.step(x), k), p.iiter(x, k + 1) == p.iiter(p.istep(x), k)
+{
+    lemma_iter_add(p, x, 1, k);
+    assert(p.iter(x, 1) == p.step(p.iter(x, 0)));
+    assert(p.iiter(x, 1) == p.istep(p.iiter(x, 0)));
+}
+
+// iter and iiter undo each other
+pub proof fn lemma_iter_iiter(p: &Inv2, x: int, k: nat)
+    requires p.wf(), 1 <= x <= p.n
+    ensures p.iter(p.iiter(x, k), k) == x, p.iiter(p.iter(x, k), k) == x
+    decreases k
+{
+    if k > 0 {
+        lemma_range(p, x, (k - 1) as nat);
+        let y = p.iiter(x, (k - 1) as nat);
+        lemma_iter_front(p, p.istep(y), (k - 1) as nat);
+        lemma_step_istep(p, y);
+        lemma_iter_iiter(p, x, (k - 1) as nat);
+        let z = p.iter(x, (k - 1) as nat);
+        lemma_iter_front(p, p.step(z), (k - 1) as nat);
+        lemma_step_istep(p, z);
+    }
+}
+
+// same fixed points: iter(x,k)==x <==> iiter(x,k)==x
+pub proof fn lemma_fix_equiv(p: &Inv2, x: int, k: nat)
+    requires p.wf(), 1 <= x <= p.n
+    ensures (p.iter(x, k) == x) <==> (p.iiter(x, k) == x)
+{
+    lemma_iter_iiter(p, x, k);
+}
+
+pub proof fn lemma_ret_iret(p: &Inv2, x: int, m: nat)
+    requires p.wf(), 1 <= x <= p.n
+    ensures p.ret(x, m) <==> p.iret(x, m)
+{
+    lemma_fix_equiv(p, x, m);
+    assert forall|k: nat| 0 < k < m implies ((#[trigger] p.iter(x, k) != x) <==> (p.iiter(x, k) != x)) by { lemma_fix_equiv(p, x, k); }
+    if p.ret(x, m) {
+        assert forall|k: nat| 0 < k < m implies #[trigger] p.iiter(x, k) != x by { lemma_fix_equiv(p, x, k); assert(p.iter(x, k) != x); }
+    }
+    if p.iret(x, m) {
+        assert forall|k: nat| 0 < k < m implies #[trigger] p.iter(x, k) != x by { lemma_fix_equiv(p, x, k); assert(p.iiter(x, k) != x); }
+    }
+}
+
+// (B) conjugation by s: iter(s x, k) == s(iiter(x, k))
+pub proof fn lemma_conj(p: &Inv2, x: int, k: nat)
+    requires p.wf(), 1 <= x <= p.n
+    ensures p.iter((p.s)(x), k) == (p.s)(p.iiter(x, k))
+    decreases k
+{
+    if k > 0 {
+        lemma_conj(p, x, (k - 1) as nat);
+        lemma_range(p, x, (k - 1) as nat);
+        let y = p.iiter(x, (k - 1) as nat);
+        // step(s y) = t(s(s y)) = t y ;  s(istep y) = s(s(t y)) = t y
+        assert((p.s)((p.s)(y)) == y);
+        assert(1 <= (p.t)(y) <= p.n);
+        assert((p.s)((p.s)((p.t)(y))) == (p.t)(y));
+    }
+}
+
+pub proof fn lemma_ret_s(p: &Inv2, x: int, m: nat)
+    requires p.wf(), 1 <= x <= p.n, p.ret(x, m)
+    ensures p.ret((p.s)(x), m)
+{
+    lemma_ret_iret(p, x, m);
+    let sx = (p.s)(x);
+    lemma_conj(p, x, m);
+    assert forall|k: nat| 0 < k < m implies #[trigger] p.iter(sx, k) != sx by {
+        lemma_conj(p, x, k);
+        lemma_range(p, x, k);
+        let y = p.iiter(x, k);
+        assert(y != x);
+        if (p.s)(y) == sx { assert((p.s)((p.s)(y)) == y); assert((p.s)((p.s)(x)) == x); }
+    }
+}
+
+// (A) shift along the cycle
+pub proof fn lemma_peel(p: &Inv2, x: int, a: nat, k: nat)
+    requires p.wf(), 1 <= x <= p.n, p.iter(x, a + k) == p.iter(x, a)
+    ensures p.iter(x, k) == x
+{
+    lemma_iter_add(p, x, k, a);
+    assert(a + k == k + a);
+    // iter(iter(x,k), a) == iter(x, a): apply iiter a times to both
+    lemma_range(p, x, k);
+    lemma_iter_iiter(p, p.iter(x, k), a);
+    lemma_iter_iiter(p, x, a);
+}
+
+pub proof fn lemma_ret_shift(p: &Inv2, x: int, m: nat, j: nat)
+    requires p.wf(), 1 <= x <= p.n, p.ret(x, m)
+    ensures p.ret(p.iter(x, j), m)
+{
+    let y = p.iter(x, j);
+    lemma_iter_add(p, x, j, m);
+    lemma_iter_add(p, x, m, j);
+    assert(j + m == m + j);
+    assert(p.iter(y, m) == y);
+    assert forall|k: nat| 0 < k < m implies #[trigger] p.iter(y, k) != y by {
+        lemma_iter_add(p, x, j, k);
+        if p.iter(y, k) == y { lemma_peel(p, x, j, k); }
+    }
+}
+
+
+pub open spec fn inv2_of(ds: &SimpleDSet, i: int) -> Inv2 {
+    Inv2 { n: ds.size as int, s: |x: int| ds.t(i, x), t: |x: int| ds.t(i + 1, x) }
+}
+
+pub proof fn lemma_inv2_wf(ds: &SimpleDSet, i: int)
+    requires ds.inv(), 0 <= i < ds.dim
+    ensures inv2_of(ds, i).wf()
+{
+    let p = inv2_of(ds, i);
+    assert forall|x: int| 1 <= x <= p.n implies 1 <= #[trigger] (p.s)(x) <= p.n && (p.s)((p.s)(x)) == x by { assert(1 <= ds.t(i, x) <= ds.size); }
+    assert forall|x: int| 1 <= x <= p.n implies 1 <= #[trigger] (p.t)(x) <= p.n && (p.t)((p.t)(x)) == x by { assert(1 <= ds.t(i + 1, x) <= ds.size); }
+}
+
+pub proof fn lemma_iter_bridge(ds: &SimpleDSet, i: int, x: int, k: nat)
+    ensures iter(ds, i, x, k) == inv2_of(ds, i).iter(x, k)
+    decreases k
+{
+    if k > 0 { lemma_iter_bridge(ds, i, x, (k - 1) as nat); }
+}
+
+// m is the least k >= 1 with (op_{i+1} op_i)^k x == x, i.e. the length of the (i,i+1)-cycle through x
+#[verifier::opaque]
+pub open spec fn ret_at(ds: &SimpleDSet, i: int, x: int, m: int) -> bool {
+    m >= 1 && inv2_of(ds, i).ret(x, m as nat)
+}
+
+// x lies on the orbit of d under the group generated by op_i and op_{i+1}
+pub open spec fn in_orbit(ds: &SimpleDSet, i: int, d: int, x: int) -> bool {
+    exists|k: nat| x == #[trigger] iter(ds, i, d, k) || x == ds.t(i, iter(ds, i, d, k))
+}
+
+#[verifier::opaque]
+pub open spec fn members(ds: &SimpleDSet, i: int, d: int, seen0: Seq<bool>, seen: Seq<bool>) -> bool {
+    forall|x: int| 1 <= x <= ds.size && #[trigger] seen[x] && !seen0[x] ==> in_orbit(ds, i, d, x)
+}
+
+#[verifier::opaque]
+pub open spec fn ret_seen(ds: &SimpleDSet, i: int, seen: Seq<bool>, oi: Seq<usize>, rs: Seq<usize>) -> bool {
+    forall|x: int| 1 <= x <= ds.size && #[trigger] seen[x] ==> oi[x] < rs.len() && ret_at(ds, i, x, rs[oi[x] as int] as int)
+}
+
+// C02: for EVERY chamber x, orbit_rs[orbit_index[i][x]] is the length of the (i,i+1)-orbit cycle through x
+#[verifier::opaque]
+pub open spec fn ret_all(ds: &SimpleDSet, j: int, oi: Seq<usize>, rs: Seq<usize>) -> bool {
+    forall|x: int| 1 <= x <= ds.size ==> (#[trigger] oi[x]) < rs.len() && ret_at(ds, j, x, rs[oi[x] as int] as int)
+}
+
+proof fn lemma_members_init(ds: &SimpleDSet, i: int, d: int, seen0: Seq<bool>)
+    ensures members(ds, i, d, seen0, seen0)
+{
+    reveal(members);
+}
+
+proof fn lemma_members_step(ds: &SimpleDSet, i: int, d: int, steps: nat, seen0: Seq<bool>, seen: Seq<bool>)
+    requires ds.inv(), 0 <= i < ds.dim, 1 <= d <= ds.size, seen.len() == ds.size + 1, members(ds, i, d, seen0, seen),
+    ensures ({
+        let e = iter(ds, i, d, steps);
+        let ei = ds.t(i, e);
+        let e2 = ds.t(i + 1, ei);
+        members(ds, i, d, seen0, seen.update(ei, true).update(e2, true))
+    })
+{
+    reveal(members);
+    let e = iter(ds, i, d, steps);
+    let ei = ds.t(i, e);
+    let e2 = ds.t(i + 1, ei);
+    lemma_iter_range(ds, i, d, steps);
+    assert(1 <= ei <= ds.size);
+    assert(1 <= e2 <= ds.size);
+    let seen2 = seen.update(ei, true).update(e2, true);
+    assert(e2 == iter(ds, i, d, steps + 1));
+    assert forall|x: int| 1 <= x <= ds.size && #[trigger] seen2[x] && !seen0[x] implies in_orbit(ds, i, d, x) by {
+        if x == e2 { assert(x == iter(ds, i, d, steps + 1)); }
+        else if x == ei { assert(x == ds.t(i, iter(ds, i, d, steps))); }
+        else { assert(seen[x]); }
+    }
+}
+
+proof fn lemma_orbit_ret(ds: &SimpleDSet, i: int, d: int, steps: nat, x: int)
+    requires ds.inv(), 0 <= i < ds.dim, 1 <= d <= ds.size, steps >= 1,
+        iter(ds, i, d, steps) == d, forall|k: nat| 0 < k < steps ==> #[trigger] iter(ds, i, d, k) != d,
+        in_orbit(ds, i, d, x),
+    ensures ret_at(ds, i, x, steps as int)
+{
+    reveal(ret_at);
+    let p = inv2_of(ds, i);
+    lemma_inv2_wf(ds, i);
+    lemma_iter_bridge(ds, i, d, steps);
+    assert forall|k: nat| 0 < k < steps implies #[trigger] p.iter(d, k) != d by { lemma_iter_bridge(ds, i, d, k); }
+    assert(p.ret(d, steps));
+    let k = choose|k: nat| x == #[trigger] iter(ds, i, d, k) || x == ds.t(i, iter(ds, i, d, k));
+    lemma_iter_bridge(ds, i, d, k);
+    lemma_ret_shift(&p, d, steps, k);
+    let y = p.iter(d, k);
+    if x != y {
+        lemma_range(&p, d, k);
+        lemma_ret_s(&p, y, steps);
+        assert((p.s)(y) == ds.t(i, y));
+    }
+}
+
+proof fn lemma_ret_seen_init(ds: &SimpleDSet, i: int, seen: Seq<bool>, oi: Seq<usize>, rs: Seq<usize>)
+    requires forall|x: int| 0 <= x < seen.len() ==> !seen[x], seen.len() == ds.size + 1
+    ensures ret_seen(ds, i, seen, oi, rs)
+{
+    reveal(ret_seen);
+}
+
+proof fn lemma_ret_seen_extend(ds: &SimpleDSet, i: int, d: int, seen0: Seq<bool>, oi0: Seq<usize>, seen: Seq<bool>, oi: Seq<usize>,
+                               rs: Seq<usize>, steps: usize)
+    requires ds.inv(), 0 <= i < ds.dim, 1 <= d <= ds.size, steps >= 1,
+        seen0.len() == ds.size + 1, oi0.len() == ds.size + 1,
+        ret_seen(ds, i, seen0, oi0, rs), members(ds, i, d, seen0, seen),
+        final_inv(ds, i, d, seen0, oi0, seen, oi, rs.len() as usize), rs.len() <= usize::MAX,
+        iter(ds, i, d, steps as nat) == d, forall|k: nat| 0 < k < steps ==> #[trigger] iter(ds, i, d, k) != d,
+    ensures ret_seen(ds, i, seen, oi, rs.push(steps))
+{
+    reveal(ret_seen);
+    reveal(members);
+    let rs2 = rs.push(steps);
+    assert forall|x: int| 1 <= x <= ds.size && #[trigger] seen[x] implies oi[x] < rs2.len() && ret_at(ds, i, x, rs2[oi[x] as int] as int) by {
+        if seen0[x] {
+            assert(oi[x] == oi0[x]);
+            assert(rs2[oi[x] as int] == rs[oi0[x] as int]);
+        } else {
+            assert(oi[x] == rs.len());
+            assert(rs2[oi[x] as int] == steps);
+            lemma_orbit_ret(ds, i, d, steps as nat, x);
+        }
+    }
+}
+
+proof fn lemma_ret_all_intro(ds: &SimpleDSet, i: int, seen: Seq<bool>, oi: Seq<usize>, rs: Seq<usize>)
+    requires ret_seen(ds, i, seen, oi, rs), forall|x: int| 1 <= x <= ds.size ==> seen[x]
+    ensures ret_all(ds, i, oi, rs)
+{
+    reveal(ret_seen);
+    reveal(ret_all);
+    assert forall|x: int| 1 <= x <= ds.size implies (#[trigger] oi[x]) < rs.len() && ret_at(ds, i, x, rs[oi[x] as int] as int) by { assert(seen[x]); }
+}
+
+proof fn lemma_ret_all_mono(ds: &SimpleDSet, j: int, oi: Seq<usize>, rs: Seq<usize>, v: usize)
+    requires ret_all(ds, j, oi, rs)
+    ensures ret_all(ds, j, oi, rs.push(v))
+{
+    reveal(ret_all);
+    let rs2 = rs.push(v);
+    assert forall|x: int| 1 <= x <= ds.size implies (#[trigger] oi[x]) < rs2.len() && ret_at(ds, j, x, rs2[oi[x] as int] as int) by {
+        assert(rs2[oi[x] as int] == rs[oi[x] as int]);
+    }
+}
+
+proof fn lemma_ret_all_cong(a: &SimpleDSet, b: &SimpleDSet, j: int, oi: Seq<usize>, rs: Seq<usize>)
+    requires ret_all(a, j, oi, rs), a.op@ == b.op@, a.size == b.size, a.dim == b.dim
+    ensures ret_all(b, j, oi, rs)
+{
+    reveal(ret_all);
+    reveal(ret_at);
+    assert(inv2_of(a, j).n == inv2_of(b, j).n);
+    assert forall|x: int| 1 <= x <= b.size implies (#[trigger] oi[x]) < rs.len() && ret_at(b, j, x, rs[oi[x] as int] as int) by {
+        let m = rs[oi[x] as int] as nat;
+        let pa = inv2_of(a, j); let pb = inv2_of(b, j);
+        assert forall|k: nat| pa.iter(x, k) == pb.iter(x, k) by { lemma_iter_cong(a, b, j, x, k); }
+        assert(pa.ret(x, m));
+        assert(pb.iter(x, m) == x);
+        assert forall|k: nat| 0 < k < m implies #[trigger] pb.iter(x, k) != x by { assert(pa.iter(x, k) != x); }
+    }
+}
+
+proof fn lemma_iter_cong(a: &SimpleDSet, b: &SimpleDSet, j: int, x: int, k: nat)
+    requires a.op@ == b.op@, a.size == b.size, a.dim == b.dim
+    ensures inv2_of(a, j).iter(x, k) == inv2_of(b, j).iter(x, k)
+    decreases k
+{
+    if k > 0 {
+        lemma_iter_cong(a, b, j, x, (k - 1) as nat);
+        let y = inv2_of(a, j).iter(x, (k - 1) as nat);
+        assert(a.t(j, y) == b.t(j, y));
+        assert(a.t(j + 1, a.t(j, y)) == b.t(j + 1, b.t(j, y)));
+    }
+}
+
 //@ begin src/dsyms.rs :: - :: fn collect_orbits | props=C01,C02,C04
 //@ rw R16 /-> \(Vec<usize>, Vec<bool>, Vec<Vec<usize>>\)/-> (res: (Vec<usize>, Vec<bool>, Vec<Vec<usize>>))/
 //@ rw R12 /let mut orbit_rs = vec!\[\];/let mut orbit_rs: Vec<usize> = vec![];/
@@ -886,6 +1239,8 @@ pub fn collect_orbits(ds: &SimpleDSet)
         forall|i: int| 0 <= i < ds.dim ==> (#[trigger] res.2@[i])@.len() == ds.size + 1,
         forall|i: int| 0 <= i < ds.dim ==> orb_ok(ds, i, (#[trigger] res.2@[i])@, res.0@.len() as int),
         forall|k: int| 0 <= k < res.0@.len() ==> #[trigger] res.0@[k] >= 1,
+        // C02: for every chamber, the recorded r is the least return time of op_{i+1} op_i, i.e. the orbit length
+        forall|i: int| 0 <= i < ds.dim ==> ret_all(ds, i, (#[trigger] res.2@[i])@, res.0@),
 {
     let mut orbit_rs: Vec<usize> = vec![];
     let mut orbit_is_chain: Vec<bool> = vec![];
@@ -900,9 +1255,11 @@ pub fn collect_orbits(ds: &SimpleDSet)
             orbit_index@.len() == ds.dim,
             forall|j: int| 0 <= j < ds.dim ==> (#[trigger] orbit_index@[j])@.len() == ds.size + 1,
             forall|j: int| 0 <= j < i ==> orb_ok(ds, j, (#[trigger] orbit_index@[j])@, orbit_rs@.len() as int),
+            forall|j: int| 0 <= j < i ==> ret_all(ds, j, (#[trigger] orbit_index@[j])@, orbit_rs@),
             forall|k: int| 0 <= k < orbit_rs@.len() ==> #[trigger] orbit_rs@[k] >= 1,
     {
         seen.fill(false);
+        proof { lemma_ret_seen_init(ds, i as int, seen@, orbit_index@[i as int]@, orbit_rs@); }
 
         for d in 1..(ds.size()) + 1
             invariant
@@ -916,6 +1273,8 @@ pub fn collect_orbits(ds: &SimpleDSet)
                 closed(ds, i as int, seen@),
                 idx_ok(ds, i as int, seen@, orbit_index@[i as int]@, orbit_rs@.len() as int),
                 forall|x: int| 1 <= x < d ==> seen@[x],
+                forall|j: int| 0 <= j < i ==> ret_all(ds, j, (#[trigger] orbit_index@[j])@, orbit_rs@),
+                ret_seen(ds, i as int, seen@, orbit_index@[i as int]@, orbit_rs@),
         {
             if !seen[d] {
                 let orbit_nr = orbit_rs.len();
@@ -924,6 +1283,7 @@ pub fn collect_orbits(ds: &SimpleDSet)
                 let mut is_chain = false;
                 let ghost seen0 = seen@;
                 let ghost oi0 = orbit_index@;
+                proof { lemma_members_init(ds, i as int, d as int, seen0); }
 
                 loop
                     invariant_except_break
@@ -938,6 +1298,7 @@ pub fn collect_orbits(ds: &SimpleDSet)
                         forall|j: int| 0 <= j < ds.dim ==> (#[trigger] orbit_index@[j])@.len() == ds.size + 1,
                         forall|j: int| 0 <= j < ds.dim && j != i ==> #[trigger] orbit_index@[j] == oi0[j],
                         e == iter(ds, i as int, d as int, steps as nat),
+                        members(ds, i as int, d as int, seen0, seen@),
                     ensures
                         steps >= 1,
                         iter(ds, i as int, d as int, steps as nat) == d,
@@ -947,6 +1308,7 @@ pub fn collect_orbits(ds: &SimpleDSet)
                     proof {
                         lemma_steps_bound(ds, i as int, d as int, steps as nat);
                         lemma_inner_step(ds, i as int, d as int, e as int, steps as int, seen0, oi0[i as int]@, seen@, orbit_index@[i as int]@, orbit_nr);
+                        lemma_members_step(ds, i as int, d as int, steps as nat, seen0, seen@);
                     }
                     let ghost seen_b = seen@;
                     let ghost oi_b = orbit_index@[i as int]@;
@@ -977,6 +1339,11 @@ pub fn collect_orbits(ds: &SimpleDSet)
                         assert(orbit_index@[j] == oi0[j]);
                         lemma_orb_ok_mono(ds, j, oi0[j]@, orbit_rs@.len() as int, orbit_rs@.len() as int + 1);
                     }
+                    lemma_ret_seen_extend(ds, i as int, d as int, seen0, oi0[i as int]@, seen@, orbit_index@[i as int]@, orbit_rs@, steps);
+                    assert forall|j: int| 0 <= j < i implies ret_all(ds, j, (#[trigger] orbit_index@[j])@, orbit_rs@.push(steps)) by {
+                        assert(orbit_index@[j] == oi0[j]);
+                        lemma_ret_all_mono(ds, j, oi0[j]@, orbit_rs@, steps);
+                    }
                 }
                 orbit_rs.push(steps);
                 orbit_is_chain.push(is_chain);
@@ -984,6 +1351,7 @@ pub fn collect_orbits(ds: &SimpleDSet)
         }
         proof {
             lemma_orb_ok_intro(ds, i as int, seen@, orbit_index@[i as int]@, orbit_rs@.len() as int);
+            lemma_ret_all_intro(ds, i as int, seen@, orbit_index@[i as int]@, orbit_rs@);
         }
     }
 
@@ -1014,6 +1382,8 @@ pub open spec fn sym_ok(dset: &SimpleDSet, oi: Seq<Vec<usize>>, rs: Seq<usize>, 
     &&& forall|i: int| 0 <= i < dset.dim ==> (#[trigger] oi[i])@.len() == dset.size + 1
     // orbit_index[i] is < #orbits and constant along operations i and i+1 (i.e. on (i,i+1)-orbits)
     &&& forall|i: int| 0 <= i < dset.dim ==> orb_ok(dset, i, (#[trigger] oi[i])@, rs.len() as int)
+    // orbit_rs[orbit_index[i][x]] is the length of the (i,i+1)-orbit cycle through x, for every chamber x
+    &&& forall|i: int| 0 <= i < dset.dim ==> ret_all(dset, i, (#[trigger] oi[i])@, rs)
     &&& vs.len() == rs.len()
     &&& forall|k: int| 0 <= k < rs.len() ==> #[trigger] rs[k] >= 1
     // m = r * v is representable
@@ -1057,6 +1427,18 @@ pub open spec fn spec_m(dset: &SimpleDSet, oi: Seq<Vec<usize>>, rs: Seq<usize>, 
         (Some(a), Some(b)) => Some((a * b) as usize),
         _ => None,
     }
+}
+
+// C02: "r(i,j,d) is the length of the orbit of d under the product of operations i and j", adjacent indices: the value returned
+// by r (in either representation: both are proved equal to spec_r) is the least k >= 1 with (op_{i+1} op_i)^k d == d
+pub proof fn lemma_r_adjacent_is_orbit_length(dset: &SimpleDSet, oi: Seq<Vec<usize>>, rs: Seq<usize>, vs: Seq<usize>, i: int, d: int)
+    requires sym_ok(dset, oi, rs, vs), 0 <= i < dset.dim, 1 <= d <= dset.size
+    ensures spec_r(dset, oi, rs, i, i + 1, d).is_some(),
+        ret_at(dset, i, d, spec_r(dset, oi, rs, i, i + 1, d).unwrap() as int),
+        spec_r(dset, oi, rs, i + 1, i, d) == spec_r(dset, oi, rs, i, i + 1, d),
+{
+    reveal(ret_all);
+    assert(ret_all(dset, i, oi[i]@, rs));
 }
 
 // C02: r, v, m are symmetric in (i, j)
@@ -1152,6 +1534,9 @@ impl PartialDSym {
         proof {
             assert forall|i: int| 0 <= i < __c.dim implies orb_ok(&__c, i, (#[trigger] orbit_index@[i])@, orbit_rs@.len() as int) by {
                 lemma_orb_ok_cong(dset, &__c, i, orbit_index@[i]@, orbit_rs@.len() as int);
+            }
+            assert forall|i: int| 0 <= i < __c.dim implies ret_all(&__c, i, (#[trigger] orbit_index@[i])@, orbit_rs@) by {
+                lemma_ret_all_cong(dset, &__c, i, orbit_index@[i]@, orbit_rs@);
             }
             assert forall|i: int, d: int| 0 <= i <= __c.dim && 1 <= d <= __c.size implies ({
                 let e = #[trigger] __c.t(i, d);
